@@ -749,6 +749,8 @@ var specUFs = map[string]ufSig{
 	"itkey":      {[]string{"Int", "Int"}, "Key"},
 	"eventhash":  {[]string{"Dyn"}, "String"},
 	"chainok":    {[]string{"String"}, "Bool"},
+	"recoverok":  {[]string{"String", "String"}, "Bool"},
+	"recoveraddr": {[]string{"String", "String"}, "String"},
 	"bytes2addr": {[]string{"String"}, "String"},
 	"holderRate": {[]string{"Slc_String", "Int"}, "Int"},
 	"tiDenom":    {[]string{"Slc_S_types_TokenInfo", "String", "String"}, "S_types_TokenInfo"},
@@ -841,6 +843,10 @@ func (c *CEnv) callFn(e *Expr) cv {
 			cs = append(cs, Eq(cur, c.old.Worlds[0][a.Val]))
 		}
 		return cv{V: And(cs...)}
+	case "code":
+		return cv{V: app(SInt, "str.to_code", app(SString, "str.at", c.term(e.Args[0]), c.term(e.Args[1])))}
+	case "chr":
+		return cv{V: app(SString, "str.from_code", c.term(e.Args[0]))}
 	case "strlt":
 		return cv{V: app(SBool, "str.<", c.term(e.Args[0]), c.term(e.Args[1]))}
 	case "getraw":
